@@ -29,6 +29,8 @@ type schemaCase struct {
 	Raw        string        `json:"raw,omitempty"`
 	RawPackage string        `json:"raw_package,omitempty"`
 	Meta       *e2.InputMeta `json:"meta,omitempty"`
+	// Transforms: transformation files (`passes:` lists) of this input
+	Transforms []string `json:"transforms,omitempty"`
 }
 
 // source is the single-document rendering (what the reference validator reads).
@@ -40,7 +42,7 @@ func (c schemaCase) inputs() []e2.InputSpec {
 		return []e2.InputSpec{{Format: c.Format, Package: c.RawPackage, Source: c.Raw, Meta: c.Meta}}
 	}
 	if c.SplitPkg == "" || c.Format != smodel.OpenAPI {
-		return []e2.InputSpec{{Format: c.Format, Package: c.Model.Package, Source: c.source(), Meta: c.Meta}}
+		return []e2.InputSpec{{Format: c.Format, Package: c.Model.Package, Source: c.source(), Meta: c.Meta, Transforms: c.Transforms}}
 	}
 	moved := map[string]bool{}
 	for _, n := range c.Moved {
@@ -48,7 +50,7 @@ func (c schemaCase) inputs() []e2.InputSpec {
 	}
 	a, b := smodel.RenderOpenAPISplit(c.Model, c.SplitPkg, moved)
 	return []e2.InputSpec{
-		{Format: smodel.OpenAPI, Package: c.Model.Package, Source: a, FileName: c.Model.Package + ".json"},
+		{Format: smodel.OpenAPI, Package: c.Model.Package, Source: a, FileName: c.Model.Package + ".json", Transforms: c.Transforms},
 		{Format: smodel.OpenAPI, Package: c.SplitPkg, Source: b, FileName: c.SplitPkg + ".json"},
 	}
 }
